@@ -266,6 +266,19 @@ func c10TS(c *Ctx, r *report.Run, w *ws.Workspace, units []rt.JobUnit) error {
 		ops = append(ops, map[string]any{"op": "server_handle", "id": id, "server": server, "svc": er.Svc, "req": er.ValidReq, "respObj": map[string]any{}, "handlerThrows": "handler-boom-Ω",
 			"onError": map[string]any{"status": 418, "headers": map[string]string{"X-Hook": "1", "Content-Type": "application/json"}}})
 	}
+	// a validation failure stays a 400 with its violations when an onError hook is configured: the hook shapes other errors
+	for _, k := range keys {
+		er := firstOfRPC[k]
+		if er.ValidReq == nil {
+			continue
+		}
+		_, server := tsModules(w.Unit(er.Unit))
+		id := k + "|throwval+hook"
+		hcases[id] = hcase{er, "handler_validation_error_hooked"}
+		ops = append(ops, map[string]any{"op": "server_handle", "id": id, "server": server, "svc": er.Svc, "req": er.ValidReq, "respObj": map[string]any{},
+			"handlerThrowsValidation": []map[string]string{{"field": "a.b[0].c", "description": "from handler"}, {"field": "X-Hdr", "description": "second"}},
+			"onError":                 map[string]any{"status": 418, "headers": map[string]string{"X-Hook": "1", "Content-Type": "application/json"}}})
+	}
 	res, err = runNode(c, w, ops)
 	if err != nil {
 		return err
@@ -317,7 +330,7 @@ func c10TS(c *Ctx, r *report.Run, w *ws.Workspace, units []rt.JobUnit) error {
 			default:
 				r.Case(cellBase, "handler_error_500_with_message", true)
 			}
-		case "handler_validation_error":
+		case "handler_validation_error", "handler_validation_error_hooked":
 			var sv struct {
 				Violations []tsViolation `json:"violations"`
 			}
@@ -331,7 +344,7 @@ func c10TS(c *Ctx, r *report.Run, w *ws.Workspace, units []rt.JobUnit) error {
 				r.Violate(cell, "body_differs", fmt.Sprintf("TS server: 400 body does not list the handler's violations: %s", short(string(body), 160)), nil)
 				r.Case(cellBase, "body_differs", true)
 			default:
-				r.Case(cellBase, "handler_validation_error_400", true)
+				r.Case(cellBase, hc.kind+"_400", true)
 			}
 		case "handler_error_hooked":
 			hs, _ := a["headers"].(map[string]any)
